@@ -3,7 +3,7 @@
 import json, sys
 pid, wt = sys.argv[1], sys.argv[2]
 p = next(json.loads(l) for l in open("/verif/properties.jsonl") if json.loads(l)["id"] == pid)
-print(f"""You are testing how well a Python library's behaviour is pinned down. The library is ubermag/discretisedfield (regions, finite-difference meshes and fields for micromagnetics). You have your own scratch git worktree of it at {wt} (a detached worktree of the repository; work ONLY inside that directory; do not touch /repo, /verif or any other directory; do not look at /verif). Run Python as: cd {wt} && PYTHONPATH={wt} /venv/bin/python ... (check with `python -c "import discretisedfield, os; print(discretisedfield.__file__)"` that the module is imported from {wt}). The existing test suite is run with: cd {wt} && PYTHONPATH={wt} /venv/bin/python -m pytest -q -p no:cacheprovider --timeout=900 discretisedfield/tests -n 6   (about 3-6 minutes; two tests, including test_pyvista_streamlines, may fail even on the unchanged code — ignore tests that also fail without your change).
+print(f"""You are testing how well a Python library's behaviour is pinned down. The library is ubermag/discretisedfield (regions, finite-difference meshes and fields for micromagnetics). You have your own scratch git worktree of it at {wt} (a detached worktree of the repository; work ONLY inside that directory; do not touch /repo, /verif or any other directory; do not look at /verif). Run Python as: cd {wt} && PYTHONPATH={wt} /venv/bin/python ... (check with `python -c "import discretisedfield, os; print(discretisedfield.__file__)"` that the module is imported from {wt}). The existing test suite is run with: cd {wt} && PYTHONPATH={wt}/seeds/.site:{wt} /venv/bin/python -m pytest -q -p no:cacheprovider --timeout=900 discretisedfield/tests -n 6   (the directory {wt}/seeds/.site holds a sitecustomize.py that only seeds Python's random module, which the parallel test collection needs; the machine is shared and busy, so a run can take 3-15 minutes; two tests, including test_pyvista_streamlines, may fail even on the unchanged code — ignore tests that also fail without your change).
 
 Here is a semantic property the library is supposed to satisfy:
 
